@@ -449,8 +449,15 @@ class simplify_chained_calls(FuncADLNodeTransformer):
             param_names = [a.arg for a in call_node.func.args.args]
             kw_names = [k.arg for k in call_node.keywords]
             n_pos = len(call_node.args)
+            lambda_args = call_node.func.args
             if (
-                len(set(param_names)) != len(param_names)
+                # Only plain parameters can be substituted (keyword-only, positional-only,
+                # *args and **kwargs parameters are not among `args.args`)
+                lambda_args.posonlyargs
+                or lambda_args.kwonlyargs
+                or lambda_args.vararg
+                or lambda_args.kwarg
+                or len(set(param_names)) != len(param_names)
                 or n_pos > len(param_names)
                 or len(set(kw_names)) != len(kw_names)
                 or set(kw_names) != set(param_names[n_pos:])
